@@ -61,3 +61,50 @@ pub fn plan(a: &[&str]) -> String {
     let st = verif::planner_stats();
     format!("{} {} {}", show_plan(&p), show_stats(&st), show_trace(&st))
 }
+
+fn enc_err(e: &data::DataEncodingError) -> &'static str {
+    match e {
+        data::DataEncodingError::TooMuchOrIllegalData => "TooMuchOrIllegalData",
+        data::DataEncodingError::SymbolListEmpty => "SymbolListEmpty",
+    }
+}
+
+/// encode <data> <symbol whitelist> <mode mask> <macros 0/1> <fnc1 0/1> <eci or N>
+/// -> ok <symbol> <data codewords> <all codewords> <planner stats> T<trace>
+pub fn encode(a: &[&str]) -> String {
+    let d = bytes(a[0]);
+    let l = list_of(a[1]);
+    let m = modes_of(int(a[2]));
+    let eci = if a[5] == "N" { None } else { Some(int(a[5]) as u32) };
+    let r = datamatrix::DataMatrixBuilder::new()
+        .with_symbol_list(l)
+        .with_encodation_types(m)
+        .with_macros(a[3] == "1")
+        .with_fnc1_start(a[4] == "1")
+        .encode_eci(&d, eci);
+    let st = verif::planner_stats();
+    match r {
+        Ok(dm) => format!(
+            "ok {} {} {} {}",
+            sym_index(dm.size),
+            show(dm.data_codewords()),
+            show(dm.codewords()),
+            show_trace(&st)
+        ),
+        Err(e) => format!("err {} {}", enc_err(&e), show_trace(&st)),
+    }
+}
+
+/// encode_str <scalars> <symbol whitelist>
+pub fn encode_str(a: &[&str]) -> String {
+    let s = match crate::dec::string_of(a[0]) {
+        Some(s) => s,
+        None => return "not-a-string".to_string(),
+    };
+    let r = datamatrix::DataMatrix::encode_str(&s, list_of(a[1]));
+    let st = verif::planner_stats();
+    match r {
+        Ok(dm) => format!("ok {} {} {}", sym_index(dm.size), show(dm.data_codewords()), show_trace(&st)),
+        Err(e) => format!("err {} {}", enc_err(&e), show_trace(&st)),
+    }
+}
